@@ -730,6 +730,7 @@ func c03wake(c *an.Ctx) {
 		if spec.typ == "Channel" {
 			clientsF := c.P.Field("nsqd", "Channel", "clients")
 			var loop *an.IndexLoop
+			var iters []ssa.Instruction // every loop over the consumers that wakes each of them (one per arm is as good as one for both)
 			for _, il := range mapRangeLoops(fn, clientsF) {
 				ok, _ := loopDoesEach(fn, il, func(in ssa.Instruction, elems []ssa.Value) bool {
 					return isInvokeOn(in, "Consumer", "Pause", func(v ssa.Value) bool { return valueIn(v, elems) }) ||
@@ -737,13 +738,21 @@ func c03wake(c *an.Ctx) {
 				})
 				if ok {
 					loop = il
+					iters = append(iters, ssa.Instruction(il.Iter))
 				}
 			}
 			c.Check(loop != nil, fn, "wakes every consumer", fn.Pos(), "", "doPause does not call Pause()/UnPause() on every consumer: pumps blocked in select never notice the change")
 			if loop == nil {
 				continue
 			}
-			wake = step{"wake every consumer", func(in ssa.Instruction) bool { return in == ssa.Instruction(loop.Iter) }}
+			wake = step{"wake every consumer", func(in ssa.Instruction) bool {
+				for _, it := range iters {
+					if in == it {
+						return true
+					}
+				}
+				return false
+			}}
 		} else {
 			pauseChF := c.P.Field("nsqd", "Topic", "pauseChan")
 			wake = step{"token to pauseChan", func(in ssa.Instruction) bool {
@@ -799,12 +808,85 @@ func c03wake(c *an.Ctx) {
 	}
 }
 
-func c03notify(c *an.Ctx) {
-	try := c.Fn("nsqd", "(*clientV2).tryUpdateReadyState")
-	if try == nil {
+// readyWakers: the wake-up is defined by what it does, not by the helper's name – a send on clientV2.ReadyStateChan
+// (a select with that send arm, or a plain send), or a call of a function of package nsqd that does one on every path to
+// its returns (tryUpdateReadyState on the pinned tree; any renamed, inlined or function-style equivalent).
+func readyWakers(c *an.Ctx) (isWake func(in ssa.Instruction, _ *an.PathState) bool, sends []ssa.Instruction, wakers map[*ssa.Function]bool) {
+	rsF := c.P.Field("nsqd", "clientV2", "ReadyStateChan")
+	wakers = map[*ssa.Function]bool{}
+	isSend := func(in ssa.Instruction) bool {
+		switch x := in.(type) {
+		case *ssa.Select:
+			for _, st := range x.States {
+				if st.Dir == types.SendOnly && isLoadOfField(st.Chan, rsF) {
+					return true
+				}
+			}
+		case *ssa.Send:
+			return isLoadOfField(x.Chan, rsF)
+		}
+		return false
+	}
+	isWake = func(in ssa.Instruction, _ *an.PathState) bool {
+		if isSend(in) {
+			return true
+		}
+		if ci, ok := in.(ssa.CallInstruction); ok {
+			if _, isGo := in.(*ssa.Go); isGo {
+				return false
+			}
+			if f := an.StaticCallee(ci); f != nil && wakers[f] {
+				return true
+			}
+		}
+		return false
+	}
+	if rsF == nil {
 		return
 	}
-	isWake := func(in ssa.Instruction, _ *an.PathState) bool { return isCallToOn(in, try, nil) }
+	var cands []*ssa.Function
+	for _, g := range c.P.RepoFuncs() {
+		if g.Pkg == nil || g.Pkg.Pkg.Path() != an.ModPath+"/nsqd" || len(g.Blocks) == 0 {
+			continue
+		}
+		cands = append(cands, g)
+		an.Instrs(g, func(in ssa.Instruction) {
+			if isSend(in) {
+				sends = append(sends, in)
+			}
+		})
+	}
+	for changed := true; changed; {
+		changed = false
+		for _, g := range cands {
+			if wakers[g] {
+				continue
+			}
+			any := false
+			an.Instrs(g, func(in ssa.Instruction) {
+				if isWake(in, nil) {
+					any = true
+				}
+			})
+			if !any {
+				continue
+			}
+			q := &an.PathQ{Fn: g, StartEntry: true, Sink: an.IsReturn, Cut: isWake}
+			if _, f := q.Find(); !f {
+				wakers[g] = true
+				changed = true
+			}
+		}
+	}
+	return
+}
+
+func c03notify(c *an.Ctx) {
+	isWake, wakeSends, _ := readyWakers(c)
+	if len(wakeSends) == 0 {
+		c.Anchor("a send on nsqd.clientV2.ReadyStateChan")
+		return
+	}
 	// unconditional wakers
 	for _, name := range []string{"FinishedMessage", "RequeuedMessage", "TimedOutMessage", "Empty", "Pause", "UnPause"} {
 		fn := c.Fn("nsqd", "(*clientV2)."+name)
@@ -814,7 +896,7 @@ func c03notify(c *an.Ctx) {
 		q := &an.PathQ{Fn: fn, StartEntry: true, Sink: an.IsReturn, Cut: isWake}
 		w, f := q.Find()
 		if f {
-			c.Bad(fn, "wakes the pump", fn.Pos(), name+" can return without tryUpdateReadyState(): a pump parked in select with stale readiness keeps (not) delivering until something else wakes it", w)
+			c.Bad(fn, "wakes the pump", fn.Pos(), name+" can return without a wake-up on ReadyStateChan: a pump parked in select with stale readiness keeps (not) delivering until something else wakes it", w)
 		} else {
 			c.OK(fn, "wakes the pump", fn.Pos(), "")
 		}
@@ -843,17 +925,13 @@ func c03notify(c *an.Ctx) {
 			c.OK(fn, "any RDY change wakes the pump", fn.Pos(), "")
 		}
 	}
-	// tryUpdateReadyState: non-blocking send on ReadyStateChan
+	// the wake-up never blocks the caller (a FIN handler, the scan worker, an HTTP request): every send on ReadyStateChan
+	// is an arm of a select with a default
 	rsF := c.P.Field("nsqd", "clientV2", "ReadyStateChan")
-	good := false
-	for _, sel := range an.Selects(try) {
-		for _, st := range sel.States {
-			if st.Dir == types.SendOnly && isLoadOfField(st.Chan, rsF) && !sel.Blocking {
-				good = true
-			}
-		}
+	for _, in := range wakeSends {
+		sel, ok := in.(*ssa.Select)
+		c.Check(ok && !sel.Blocking, in.Parent(), "wake-up is a non-blocking send on ReadyStateChan", in.Pos(), "", "a send on ReadyStateChan that can block: the channel has one slot and the pump may be busy, so the answering goroutine would stall")
 	}
-	c.Check(good, try, "wake-up is a non-blocking send on ReadyStateChan", try.Pos(), "", "tryUpdateReadyState does not do a non-blocking send on ReadyStateChan")
 	// the pump listens on it
 	if pump := c.Fn("nsqd", "(*protocolV2).messagePump"); pump != nil {
 		listens := false
